@@ -141,6 +141,32 @@ def work(item):
             acc.query(prover, topo, f"casadi[{tag}/c{c}]", f"level {c} entry {slot} == level 0 entry", s.t == c0.slot[slot].t, D, (), on_sat)
         if set(levels[c].slot) != set(c0.slot):
             acc.exec_violation(PID, topo, f"casadi[{tag}/c{c}]", "array", f"level {c} entries differ from level 0 entries", extra={"numeric": numeric})
+    # ---- a network stepped a second time with user-supplied symbols given speed-first: arguments and results must still pair up
+    if bits == 0 and pmode == "none":
+        import casadi as cs
+        try:
+            P, symbolic = runs.cas_params(topo, symtype, numeric)
+            b = T_.build(topo, P)
+            eng = runs.casadi_engine(symtype)
+            kw = T_.model_kwargs(topo, P)
+            b.net.step(engine=eng, **runs.NOFLAGS, **kw)
+            XX = getattr(cs, symtype)
+            l0 = topo.links[0]
+            ic = {b.links[l0.name]: {"v": XX.sym("v_user", l0.N, 1), "rho": XX.sym("rho_user", l0.N, 1)}}
+            b.net.step(init_conditions=ic, engine=eng, **runs.NOFLAGS, **kw)
+            for c in (0, 1):
+                F = eng.to_function(b.net, compact=c, more_out=False, parameters={k: symbolic[k] for k in declare},
+                                    **{k: x for k, x in kw.items() if k not in declare})
+                ni, no = [F.name_in(i) for i in range(F.n_in())], [F.name_out(i) for i in range(F.n_out())]
+                ex["structural_facts"] += 1
+                for k in range(F.n_out()):
+                    if k >= len(ni) or no[k] != ni[k] + "+" or F.size_out(k) != F.size_in(k):
+                        acc.exec_violation(PID, topo, f"casadi[{tag}/c{c}/re-stepped]", "array",
+                                           f"after a second step with speed-first initial conditions result {k} '{no[k]}' is not the successor of argument {k} '{ni[k] if k < len(ni) else None}'",
+                                           extra={"numeric": numeric})
+                        break
+        except Exception as e:  # noqa
+            acc.exec_violation(PID, topo, f"casadi[{tag}/re-stepped]", "array", f"second step / compile raised {type(e).__name__}: {str(e)[:200]}", extra={"numeric": numeric})
     return acc.done(prover)
 
 
